@@ -57,6 +57,9 @@ pub struct RefOptions<'a> {
     pub preload_beneficiary: bool,
     pub with_reverts: bool,
     pub precompiles: &'a [(Address, DynParallelPrecompile)],
+    /// Precompiles written directly against Alloy's unrestricted interface (no grevm facade or
+    /// adapter involved): an independent statement of what the facade-based ones must do.
+    pub raw_precompiles: &'a [(Address, alloy_evm::precompiles::DynPrecompile)],
     pub probe_addrs: &'a [Address],
     pub probe_slots: &'a [U256],
     /// Called after the run with faults to be disarmed before read-back.
@@ -107,6 +110,10 @@ where
         )));
     for (address, precompile) in opts.precompiles {
         let p = precompile.to_alloy();
+        evm.precompiles.apply_precompile(address, move |_| Some(p));
+    }
+    for (address, precompile) in opts.raw_precompiles {
+        let p = precompile.clone();
         evm.precompiles.apply_precompile(address, move |_| Some(p));
     }
     if error.is_none() {
